@@ -17,6 +17,7 @@ the input precedes every write of the output (so any overlap of the two is harml
 -/
 import SkinnyVerif.Gen.LeakTable
 import SkinnyVerif.Gen.IoTable
+import SkinnyVerif.Gen.IoTableVec
 
 namespace SkinnyVerif.Properties
 open SkinnyVerif SkinnyVerif.Gen
@@ -50,5 +51,15 @@ theorem C09_block_functions :
       coversBlock f.1 f.2 0 && coversBlock f.1 f.2 1) = true := by decide +kernel
 
 theorem C09_table_complete : ioTable.length = 24 := by decide
+
+/-- **C09 for one batch of the vector parallel-ECB functions** (all four files, default and byte-wise load / store builds):
+every access stays inside the batch (`psize` bytes of each caller buffer; for Mantis also of the tweak array), the input and
+the tweaks are never written, the output is never read, every input / tweak read precedes the first output write - so a
+batch may be processed in place - and every byte of the batch is read and written -/
+theorem C09_vector_batch_functions :
+    ioTableVec.all (fun f => f.2.all (inBlock f.1) && f.2.all directionOK && readsBeforeWrites f.2 &&
+      coversBlock f.1 f.2 0 && coversBlock f.1 f.2 1) = true := by decide +kernel
+
+theorem C09_vector_table_complete : ioTableVec.length = 13 := by decide
 
 end SkinnyVerif.Properties
